@@ -21,12 +21,22 @@ use crate::memory_pool::{
 use datafusion_common::HashMap;
 use datafusion_common::{DataFusionError, Result, resources_datafusion_err};
 use log::debug;
+#[cfg(not(datafusion_verif))]
 use parking_lot::Mutex;
 use std::fmt::{Display, Formatter};
+#[cfg(not(datafusion_verif))]
 use std::{
     num::NonZeroUsize,
     sync::atomic::{AtomicUsize, Ordering},
 };
+
+#[cfg(datafusion_verif)]
+use crate::verif_shims::{
+    Mutex,
+    atomic::{AtomicUsize, Ordering},
+};
+#[cfg(datafusion_verif)]
+use std::num::NonZeroUsize;
 
 /// A [`MemoryPool`] that enforces no limit
 #[derive(Debug, Default)]
